@@ -50,8 +50,9 @@ mod verif_cmap_reader {
         let st = t.start_code();
         kani::assume(st.len() < 2 || end.len() < 2 || st[1].get() > end[0].get());
         let cp: u16 = kani::any();
-        let got = t.map_codepoint(cp).map(|g| g.to_u32() as u16);
-        assert!(got == spec4(&t, cp));
+        // the full 32-bit glyph id is compared: a format-4 answer is a 16-bit glyph id (no stray high bits)
+        let got = t.map_codepoint(cp).map(|g| g.to_u32());
+        assert!(got == spec4(&t, cp).map(|g| g as u32));
         let big: u32 = kani::any();
         if big > 0xFFFF { assert!(t.map_codepoint(big).is_none()); }
         kani::cover!(got.is_some() && t.seg_count_x2() == 4);
